@@ -239,4 +239,31 @@ Section Receive.
     | Err e => (Err e, st, m)
     | Panic => (Panic, st, m)
     end.
+
+  (** Specification of C17 "nothing from a rejected object is left referenced":
+      the store is CLOSED when every stored block decompresses and validates, every stored
+      table decodes and has all its blocks, the block index named at the same position for
+      each of them, its table index and its profile, and every stored commit decodes and
+      has its parents. *)
+  Definition table_of (c : bytes) : res table := fst (dec_on (table_read pc) c).
+  Definition commit_of (c : bytes) : res commit := fst (dec_on (commit_read parse_int parse_tz) c).
+
+  Definition block_ok (comp : bytes) : Prop :=
+    exists content, unz comp = Some content /\ validate_block content = Ok tt.
+
+  Definition table_ok (st : store) (t : bytes) (c : bytes) : Prop :=
+    exists tbl, table_of c = Ok tbl /\
+      (forall i b, nth_error (tb_blocks tbl) i = Some b ->
+         has_key (st_blk st) b = true /\
+         exists x, nth_error (tb_indices tbl) i = Some x /\ mem (st_blkidx st) x = true) /\
+      mem (st_tblidx st) t = true /\ mem (st_tblprof st) t = true.
+
+  Definition commit_ok (st : store) (c : bytes) : Prop :=
+    exists cm, commit_of c = Ok cm /\
+      forall p, In p (c_parents cm) -> has_key (st_com st) p = true.
+
+  Definition closed (st : store) : Prop :=
+    (forall k comp, lookup (st_blk st) k = Some comp -> block_ok comp) /\
+    (forall t c, lookup (st_tbl st) t = Some c -> table_ok st t c) /\
+    (forall k c, lookup (st_com st) k = Some c -> commit_ok st c).
 End Receive.
